@@ -323,7 +323,7 @@ NLLegal(t) == t.b \in {"S", "O", "L", "K", "T"}
 Idx(toks, P(_)) == SelectSeq([i \in DOMAIN toks |-> i], LAMBDA i : P(i))
 Every(s, k, r) == SelectSeq(s, LAMBDA i : i % k = r)
 NLIdx(toks) == Idx(toks, LAMBDA i : NLLegal(toks[i]))
-AnyIdx(toks) == Idx(toks, LAMBDA i : toks[i].b \notin {"T", "W"})
+AnyIdx(toks) == Idx(toks, LAMBDA i : toks[i].b \notin {"T", "W", "A"})     \* (where a layout ends the line, the comment ends it)
 CM(k, at) == [k |-> k, at |-> at]
 PickOf(s, salt) == IF s = <<>> THEN <<>> ELSE <<s[((Seed * 17 + salt) % Len(s)) + 1]>>
 \* lc: line comment ending the line after the token (a break is taken there); bc: /* */ on the same line after the token;
